@@ -28,20 +28,19 @@ Proof.
 Qed.
 
 (* ---------- the shape of the socket log ---------- *)
-(* newest first: a concatenation of complete exchanges, each a datagram of one thread
-   immediately followed by the BMC's reply to that very datagram, read by the same
-   thread *)
-Inductive wf_wire : list event -> Prop :=
-| W_nil : wf_wire []
-| W_pair t k s h q l : wf_wire l ->
-    wf_wire (Rcvd t (bmc_reply (nsent l) h q) :: Sent t k s h q :: l).
+(* newest first: a concatenation of complete exchanges [exch_nf]: a datagram of one
+   thread, (the unrelated frame the BMC chose to send first, read and dropped by the same
+   thread,) the BMC's reply to that very datagram, read by the same thread *)
+Inductive wf_wire (c : cfg) : list event -> Prop :=
+| W_nil : wf_wire c []
+| W_pair t k s h q l : wf_wire c l -> wf_wire c (exch_nf c t k s h q (nsent l) ++ l).
 
 (* request j of thread t (which asked for q) was answered by r: r is the BMC's reply to
-   the datagram that t sent for that request, and t read it right after sending *)
-Definition exchange_in (w : list event) (t : tid) (j : nat) (q : treq) (r : frame) : Prop :=
-  exists l1 l2 s h, w = l1 ++ Rcvd t r :: Sent t j s h q :: l2 /\ r = bmc_reply (nsent l2) h q.
+   the datagram that t sent for that request, and the exchange is t's alone *)
+Definition exchange_in (c : cfg) (w : list event) (t : tid) (j : nat) (q : treq) (r : frame) : Prop :=
+  exists l1 l2 s h, w = l1 ++ exch_nf c t j s h q (nsent l2) ++ l2 /\ r = bmc_reply (nsent l2) h q.
 
-Lemma exchange_in_cons e w t j q r : exchange_in w t j q r -> exchange_in (e :: w) t j q r.
+Lemma exchange_in_cons c e w t j q r : exchange_in c w t j q r -> exchange_in c (e :: w) t j q r.
 Proof. intros (l1 & l2 & s & h & -> & E). exists (e :: l1), l2, s, h. split; auto. Qed.
 
 (* session sequence numbers: every datagram carries the successor (pack_sseq) of the
@@ -62,29 +61,46 @@ Fixpoint seq_ok (c : cfg) (s0 : N) (w : list event) : Prop :=
 Lemma rx_match_own n h q : rx_match h q (bmc_reply n h q) = true.
 Proof. unfold rx_match, bmc_reply; cbn. rewrite !N.eqb_refl. reflexivity. Qed.
 
+Lemma rx_match_stale n h q : rx_match h q (stale_frame n h q) = false.
+Proof.
+  unfold rx_match, stale_frame, stale_seq; cbn. rewrite !N.eqb_refl. cbn.
+  destruct (h =? 0) eqn:E; [apply N.eqb_eq in E | apply N.eqb_neq in E]; apply N.eqb_neq; lia.
+Qed.
+
+Lemma stale_needs_retry c n : stale_ok c -> is_stale c n = true -> Nat.leb 1 (c_max_retries c) = true.
+Proof.
+  intros [E|E] H.
+  - unfold is_stale in H. rewrite E in H. discriminate.
+  - apply Nat.leb_le; auto.
+Qed.
+
 (* ---------- the invariant ---------- *)
-Definition holder_ok (w : list event) (ib : list frame) (t : tid) (th : thread) : Prop :=
+Definition holder_ok (c : cfg) (w : list event) (ib : list frame) (t : tid) (th : thread) : Prop :=
   match t_pc th with
-  | PSend h retry => retry = 0%nat /\ wf_wire w /\ ib = []
+  | PSend h retry => retry = 0%nat /\ wf_wire c w /\ ib = []
   | PRecv h retry rr =>
-      retry = 0%nat /\ rr = 0%nat /\
-      exists s q l, nth_error (t_reqs th) (t_k th) = Some q /\
-                    w = Sent t (t_k th) s h q :: l /\ wf_wire l /\ ib = [bmc_reply (nsent l) h q]
+      retry = 0%nat /\
+      exists s q l, nth_error (t_reqs th) (t_k th) = Some q /\ wf_wire c l /\
+        ((rr = 0%nat /\ w = Sent t (t_k th) s h q :: l /\ ib = bmc_frames c (nsent l) h q) \/
+         (rr = 1%nat /\ is_stale c (nsent l) = true /\
+          w = Rcvd t (stale_frame (nsent l) h q) :: Sent t (t_k th) s h q :: l /\
+          ib = [bmc_reply (nsent l) h q]))
   | PRel h (Ok r) =>
       exists s q l, nth_error (t_reqs th) (t_k th) = Some q /\
-                    w = Rcvd t r :: Sent t (t_k th) s h q :: l /\ wf_wire l /\
+                    w = exch_nf c t (t_k th) s h q (nsent l) ++ l /\ wf_wire c l /\
                     r = bmc_reply (nsent l) h q /\ ib = []
   | _ => False
   end.
 
-Definition done_ok (w : list event) (t : tid) (th : thread) : Prop :=
+Definition done_ok (c : cfg) (w : list event) (t : tid) (th : thread) : Prop :=
   length (t_done th) = t_k th /\
   forall j o, nth_error (t_done th) j = Some o ->
-    exists q r, o = Ok r /\ nth_error (t_reqs th) j = Some q /\ exchange_in w t j q r.
+    exists q r, o = Ok r /\ nth_error (t_reqs th) j = Some q /\ exchange_in c w t j q r.
 
 Section WithCfg.
 Variable c : cfg.
 Variable s0 : N.
+Hypothesis Hst : stale_ok c.
 
 Record Inv (g : gstate) : Prop := mkInv {
   inv_lock : forall t th, nth_error (g_thr g) t = Some th ->
@@ -93,11 +109,11 @@ Record Inv (g : gstate) : Prop := mkInv {
   inv_nrx : g_nrx g = nsent (g_wire g);
   inv_sseq : g_sseq g = sseq_after s0 (g_wire g);
   inv_seqok : seq_ok c s0 (g_wire g);
-  inv_done : forall t th, nth_error (g_thr g) t = Some th -> done_ok (g_wire g) t th;
+  inv_done : forall t th, nth_error (g_thr g) t = Some th -> done_ok c (g_wire g) t th;
   inv_hold : match g_lock g with
-             | None => wf_wire (g_wire g) /\ g_inbox g = []
+             | None => wf_wire c (g_wire g) /\ g_inbox g = []
              | Some t => exists th, nth_error (g_thr g) t = Some th /\
-                                    holder_ok (g_wire g) (g_inbox g) t th
+                                    holder_ok c (g_wire g) (g_inbox g) t th
              end;
   inv_cur : forall t th, nth_error (g_thr g) t = Some th ->
             t_pc th = PIdle \/ nth_error (t_reqs th) (t_k th) <> None }.
@@ -120,7 +136,7 @@ Lemma not_holder g t th : Inv g -> nth_error (g_thr g) t = Some th ->
 Proof. intros I H Hcs E. apply (inv_lock g I t th H) in E. congruence. Qed.
 
 Lemma is_holder g t th : Inv g -> nth_error (g_thr g) t = Some th ->
-  in_cs (t_pc th) = true -> g_lock g = Some t /\ holder_ok (g_wire g) (g_inbox g) t th.
+  in_cs (t_pc th) = true -> g_lock g = Some t /\ holder_ok c (g_wire g) (g_inbox g) t th.
 Proof.
   intros I H Hcs. pose proof (proj1 (inv_lock g I t th H) Hcs) as L. split; auto.
   pose proof (inv_hold g I) as Hh. rewrite L in Hh. destruct Hh as (th' & E & Hk). congruence.
@@ -132,7 +148,7 @@ Ltac cur_goal Hth Ic Hq :=
   destruct (upd_cases _ _ _ _ _ _ Hth Hx) as [[-> ->]|[? ?]];
   [ cbn; first [ left; reflexivity | right; rewrite Hq; discriminate ] | eapply Ic; eauto ].
 
-Lemma done_ok_set_pc w t th p : done_ok w t th -> done_ok w t (set_pc th p).
+Lemma done_ok_set_pc w t th p : done_ok c w t th -> done_ok c w t (set_pc th p).
 Proof. auto. Qed.
 
 (* steps 1-3: a thread outside the critical section changes its own pc (staying
@@ -152,6 +168,31 @@ Proof.
     + apply Id; auto.
   - destruct (g_lock g) as [t0|]; auto. destruct Ih as (th0 & E0 & H0).
     exists th0. split; auto. rewrite nth_error_upd_neq; auto; congruence.
+  - cur_goal Hth Ic Hq.
+Qed.
+
+(* step 6: the holder reads a datagram - only the socket side and its own pc change *)
+Lemma inv_recv g t th p rx ib q : Inv g -> nth_error (g_thr g) t = Some th ->
+  in_cs (t_pc th) = true -> in_cs p = true ->
+  nth_error (t_reqs th) (t_k th) = Some q ->
+  holder_ok c (Rcvd t rx :: g_wire g) ib t (set_pc th p) ->
+  Inv (set_thr (mkG (g_nsn g) (g_lock g) (g_sseq g) [] ib (g_nrx g) (Rcvd t rx :: g_wire g) (g_thr g))
+               t (set_pc th p)).
+Proof.
+  intros I Hth Hcs Hp Hq Hk. destruct (is_holder g t th I Hth Hcs) as [L _].
+  destruct I as [Il Iq In Is Iso Id Ih Ic].
+  constructor; cbn; auto.
+  - intros t' x Hx. destruct (upd_cases _ _ _ _ _ _ Hth Hx) as [[-> ->]|[Hne Hx']].
+    + cbn. rewrite Hp. split; auto.
+    + apply Il; auto.
+  - intros t' x Hx. destruct (upd_cases _ _ _ _ _ _ Hth Hx) as [[-> ->]|[Hne Hx']].
+    + destruct (Id t th Hth) as [D1 D2]. split; auto.
+      intros j o Ho. destruct (D2 j o Ho) as (q' & r' & ? & ? & ?).
+      exists q', r'. repeat split; auto. apply exchange_in_cons; auto.
+    + destruct (Id t' x Hx') as [D1 D2]. split; auto.
+      intros j o Ho. destruct (D2 j o Ho) as (q' & r' & ? & ? & ?).
+      exists q', r'. repeat split; auto. apply exchange_in_cons; auto.
+  - rewrite L. exists (set_pc th p). split; auto. eapply nth_error_upd_eq; eauto.
   - cur_goal Hth Ic Hq.
 Qed.
 
@@ -204,34 +245,36 @@ Proof.
         exists q', r'. repeat split; auto. apply exchange_in_cons; auto.
     + rewrite L. exists (set_pc th (PRecv h 0 0)). split.
       * eapply nth_error_upd_eq; eauto.
-      * unfold holder_ok; cbn. repeat split; auto.
+      * unfold holder_ok; cbn. split; auto.
         exists (pack_sseq c (g_sseq g)), q, (g_wire g). repeat split; auto.
-        rewrite Hib, In. reflexivity.
+        left. repeat split; auto. rewrite Hib, In. reflexivity.
     + cur_goal Hth Ic Hq.
   - (* receive *)
     assert (Hcs : in_cs (t_pc th) = true) by (rewrite Hpc; auto).
     destruct (is_holder g t th I Hth Hcs) as [L Hk].
     unfold holder_ok in Hk. rewrite Hpc in Hk.
-    destruct Hk as (-> & -> & s & q1 & w & Hq1 & Hw & Hwf & Hib).
+    destruct Hk as (-> & s & q1 & w & Hq1 & Hwf & Hcase).
     assert (q1 = q) by congruence. subst q1.
-    rewrite (inv_q g I), Hib in H. unfold after_rx in H. rewrite rx_match_own in H.
-    inversion H; subst; clear H.
-    destruct I as [Il Iq In Is Iso Id Ih Ic].
-    constructor; cbn; auto.
-    + intros t' x Hx. destruct (upd_cases _ _ _ _ _ _ Hth Hx) as [[-> ->]|[Hne Hx']].
-      * cbn. split; auto.
-      * apply Il; auto.
-    + intros t' x Hx. destruct (upd_cases _ _ _ _ _ _ Hth Hx) as [[-> ->]|[Hne Hx']].
-      * destruct (Id t th Hth) as [D1 D2]. split; auto.
-        intros j o Ho. destruct (D2 j o Ho) as (q' & r' & ? & ? & ?).
-        exists q', r'. repeat split; auto. apply exchange_in_cons; auto.
-      * destruct (Id t' x Hx') as [D1 D2]. split; auto.
-        intros j o Ho. destruct (D2 j o Ho) as (q' & r' & ? & ? & ?).
-        exists q', r'. repeat split; auto. apply exchange_in_cons; auto.
-    + rewrite L. exists (set_pc th (PRel h (Ok (bmc_reply (nsent w) h q)))). split.
-      * eapply nth_error_upd_eq; eauto.
-      * unfold holder_ok; cbn. exists s, q, w. rewrite Hw. repeat split; auto.
-    + cur_goal Hth Ic Hq.
+    rewrite (inv_q g I) in H.
+    destruct Hcase as [(-> & Hw & Hib)|(-> & Hs & Hw & Hib)].
+    + (* first frame after the datagram *)
+      unfold bmc_frames in Hib. destruct (is_stale c (nsent w)) eqn:Hs; cbn in Hib; rewrite Hib in H.
+      * (* an unrelated frame: dropped, counted, read again *)
+        unfold after_rx in H. rewrite rx_match_stale in H.
+        change (Nat.leb 1 (c_max_retries c)) with (Nat.leb 1 (c_max_retries c)) in H.
+        rewrite (stale_needs_retry c _ Hst Hs) in H. inversion H; subst; clear H.
+        eapply (inv_recv g t th (PRecv h 0 1) _ _ q); eauto.
+        unfold holder_ok; cbn. split; auto. exists s, q, w. repeat split; auto.
+        right. rewrite Hw. repeat split; auto.
+      * unfold after_rx in H. rewrite rx_match_own in H. inversion H; subst; clear H.
+        eapply (inv_recv g t th (PRel h (Ok _)) _ _ q); eauto.
+        unfold holder_ok; cbn. exists s, q, w. repeat split; auto.
+        unfold exch_nf, exch_mid. rewrite Hs, Hw. reflexivity.
+    + (* the frame after the unrelated one *)
+      rewrite Hib in H. unfold after_rx in H. rewrite rx_match_own in H. inversion H; subst; clear H.
+      eapply (inv_recv g t th (PRel h (Ok _)) _ _ q); eauto.
+      unfold holder_ok; cbn. exists s, q, w. repeat split; auto.
+      unfold exch_nf, exch_mid. rewrite Hs, Hw. reflexivity.
   - (* release *)
     inversion H; subst; clear H.
     assert (Hcs : in_cs (t_pc th) = true) by (rewrite Hpc; auto).
@@ -261,7 +304,7 @@ Proof.
                  exists [], w, s, h. split; auto.
               ** destruct d; discriminate.
       * apply Id; auto.
-    + split; auto. rewrite Hw, Hr. constructor; auto.
+    + split; auto. rewrite Hw. constructor; auto.
     + cur_goal Hth Ic Hq.
 Qed.
 
@@ -310,8 +353,9 @@ Proof.
     destruct (inv_cur g I t0 th0 Hth0) as [E|E]; [rewrite E in Hcs; discriminate|].
     destruct (nth_error (t_reqs th0) (t_k th0)) as [q0|]; [|congruence].
     unfold holder_ok in Hk. destruct (t_pc th0); try contradiction; try discriminate.
-    + destruct Hk as (_ & _ & s & q1 & w & _ & _ & _ & Hib).
-      rewrite (inv_q g I), Hib. discriminate.
+    + destruct Hk as (_ & s & q1 & w & _ & _ & [(_ & _ & Hib)|(_ & _ & _ & Hib)]);
+        rewrite (inv_q g I), Hib; [|discriminate].
+      unfold bmc_frames. destruct (is_stale c (nsent w)); discriminate.
   - exists t. unfold step, step_l. rewrite Hth, Hq.
     destruct (t_pc th) eqn:Hpc; try discriminate; try (rewrite L; discriminate);
       exfalso; assert (Hcs : in_cs (t_pc th) = true) by (rewrite Hpc; auto);
@@ -327,50 +371,60 @@ Proof. induction a as [|[] a IH]; cbn; auto; lia. Qed.
 Lemma nsent_rev l : nsent (rev l) = nsent l.
 Proof. induction l as [|[] l IH]; cbn; auto; rewrite nsent_app; cbn; lia. Qed.
 
-(* oldest first: the log from datagram number n on is a sequence of complete
-   exchanges - a datagram of some thread, then the BMC's reply to it read by the same
-   thread *)
-Inductive complete_exchanges : N -> list event -> Prop :=
-| CE_nil n : complete_exchanges n []
-| CE_cons n t k s h q l : complete_exchanges (n + 1) l ->
-    complete_exchanges n (Sent t k s h q :: Rcvd t (bmc_reply n h q) :: l).
+Lemma rev_exch_nf c t k s h q n : rev (exch_nf c t k s h q n) = exch_tx c t k s h q n.
+Proof. unfold exch_nf, exch_tx, exch_mid. destruct (is_stale c n); reflexivity. Qed.
 
-Lemma ce_app a n : complete_exchanges n a -> forall t k s h q,
-  complete_exchanges n (a ++ [Sent t k s h q; Rcvd t (bmc_reply (n + nsent a) h q)]).
+Lemma nsent_exch_tx c t k s h q n : nsent (exch_tx c t k s h q n) = 1.
+Proof. unfold exch_tx, exch_mid. destruct (is_stale c n); reflexivity. Qed.
+
+(* oldest first: the log from datagram number n on is a sequence of complete
+   exchanges [exch_tx] - a datagram of some thread, (the unrelated frame, if the BMC sent
+   one, read by the same thread,) then the BMC's reply to it read by the same thread *)
+Inductive complete_exchanges (c : cfg) : N -> list event -> Prop :=
+| CE_nil n : complete_exchanges c n []
+| CE_cons n t k s h q l : complete_exchanges c (n + 1) l ->
+    complete_exchanges c n (exch_tx c t k s h q n ++ l).
+
+Lemma ce_app c a n : complete_exchanges c n a -> forall t k s h q,
+  complete_exchanges c n (a ++ exch_tx c t k s h q (n + nsent a)).
 Proof.
   induction 1 as [n|n t k s h q l H IH]; intros t' k' s' h' q'.
-  - cbn. rewrite N.add_0_r. constructor. constructor.
-  - cbn [app]. constructor. specialize (IH t' k' s' h' q').
-    replace (n + nsent (Sent t k s h q :: Rcvd t (bmc_reply n h q) :: l)) with (n + 1 + nsent l)
-      by (cbn; lia). exact IH.
+  - cbn. rewrite N.add_0_r. rewrite <- (app_nil_r (exch_tx _ _ _ _ _ _ _)). constructor. constructor.
+  - rewrite <- app_assoc. constructor. specialize (IH t' k' s' h' q').
+    replace (n + nsent (exch_tx c t k s h q n ++ l)) with (n + 1 + nsent l)
+      by (rewrite nsent_app, nsent_exch_tx; lia). exact IH.
 Qed.
 
-Lemma wf_wire_ce l : wf_wire l -> complete_exchanges 0 (rev l).
+Lemma wf_wire_ce c l : wf_wire c l -> complete_exchanges c 0 (rev l).
 Proof.
-  induction 1 as [|t k s h q l H IH]; cbn; [constructor|].
-  rewrite <- app_assoc. cbn.
-  pose proof (ce_app _ _ IH t k s h q) as E. rewrite N.add_0_l, nsent_rev in E. exact E.
+  induction 1 as [|t k s h q l H IH]; [cbn; constructor|].
+  rewrite rev_app_distr, rev_exch_nf.
+  pose proof (ce_app _ _ _ IH t k s h q) as E. rewrite N.add_0_l, nsent_rev in E. exact E.
 Qed.
 
 (* exchanges are not interleaved: the log in transmission order consists of complete
    exchanges, followed - only while a thread holds the lock and has sent but not yet
-   received - by that thread's datagram *)
-Definition not_interleaved (g : gstate) : Prop :=
-  complete_exchanges 0 (rev (g_wire g)) \/
-  exists t k s h q l, g_lock g = Some t /\ rev (g_wire g) = l ++ [Sent t k s h q] /\
-                      complete_exchanges 0 l.
+   received its reply - by that thread's datagram (and the unrelated frame it has read) *)
+Definition not_interleaved (c : cfg) (g : gstate) : Prop :=
+  complete_exchanges c 0 (rev (g_wire g)) \/
+  exists t k s h q l, g_lock g = Some t /\ complete_exchanges c 0 l /\
+    (rev (g_wire g) = l ++ [Sent t k s h q] \/
+     rev (g_wire g) = l ++ [Sent t k s h q; Rcvd t (stale_frame (nsent l) h q)]).
 
-Lemma not_interleaved_of_inv c s0 g : Inv c s0 g -> not_interleaved g.
+Lemma not_interleaved_of_inv c s0 g : Inv c s0 g -> not_interleaved c g.
 Proof.
   intros I. pose proof (inv_hold c s0 g I) as Hh. unfold not_interleaved.
   destruct (g_lock g) as [t|] eqn:L.
   - destruct Hh as (th & Hth & Hk). unfold holder_ok in Hk.
     destruct (t_pc th); try contradiction.
     + left. apply wf_wire_ce. tauto.
-    + right. destruct Hk as (_ & _ & s & q & l & _ & Hw & Hwf & _).
-      exists t, (t_k th), s, h, q, (rev l). rewrite Hw. cbn. repeat split; auto. apply wf_wire_ce; auto.
+    + right. destruct Hk as (_ & s & q & l & _ & Hwf & [(_ & Hw & _)|(_ & _ & Hw & _)]);
+        exists t, (t_k th), s, h, q, (rev l); rewrite Hw; cbn; (split; [auto|]);
+        (split; [apply wf_wire_ce; auto|]).
+      * left; reflexivity.
+      * right. rewrite nsent_rev, <- app_assoc. reflexivity.
     + destruct o; try contradiction. left.
-      destruct Hk as (s & q & l & _ & Hw & Hwf & Hr & _). apply wf_wire_ce. rewrite Hw, Hr.
+      destruct Hk as (s & q & l & _ & Hw & Hwf & Hr & _). apply wf_wire_ce. rewrite Hw.
       constructor; auto.
   - left. apply wf_wire_ce. tauto.
 Qed.
@@ -448,20 +502,20 @@ Proof.
 Qed.
 
 (* own reply, in transmission order *)
-Definition answered (g : gstate) (t : tid) (j : nat) (q : treq) (r : frame) : Prop :=
-  exists a b s h, rev (g_wire g) = a ++ Sent t j s h q :: Rcvd t r :: b /\
+Definition answered (c : cfg) (g : gstate) (t : tid) (j : nat) (q : treq) (r : frame) : Prop :=
+  exists a b s h, rev (g_wire g) = a ++ exch_tx c t j s h q (nsent a) ++ b /\
                   r = bmc_reply (nsent a) h q.
 
-Lemma exchange_in_answered g t j q r : exchange_in (g_wire g) t j q r -> answered g t j q r.
+Lemma exchange_in_answered c g t j q r : exchange_in c (g_wire g) t j q r -> answered c g t j q r.
 Proof.
   intros (l1 & l2 & s & h & E & Hr). exists (rev l2), (rev l1), s, h. split.
-  - rewrite E, rev_app_distr. cbn. rewrite <- !app_assoc. reflexivity.
+  - rewrite E, !rev_app_distr, rev_exch_nf, nsent_rev, <- app_assoc. reflexivity.
   - rewrite nsent_rev. exact Hr.
 Qed.
 
 Lemma own_reply_of_inv c s0 g : Inv c s0 g -> forall t th j o,
   nth_error (g_thr g) t = Some th -> nth_error (t_done th) j = Some o ->
-  exists q r, o = Ok r /\ nth_error (t_reqs th) j = Some q /\ answered g t j q r.
+  exists q r, o = Ok r /\ nth_error (t_reqs th) j = Some q /\ answered c g t j q r.
 Proof.
   intros I t th j o Hth Ho. destruct (inv_done c s0 g I t th Hth) as [_ D].
   destruct (D j o Ho) as (q & r & ? & ? & ?). exists q, r. repeat split; auto.
@@ -471,36 +525,37 @@ Qed.
 (* ---------- for every schedule, any number of threads and requests ---------- *)
 Section AllSchedules.
 Variables (c : cfg) (nsn0 s0 : N) (progs : list (list treq)) (sched : list tid).
+Hypothesis Hst : stale_ok c.
 Let g := exec c sched (init nsn0 s0 progs).
 
 Lemma mutex_all t1 t2 th1 th2 :
   nth_error (g_thr g) t1 = Some th1 -> nth_error (g_thr g) t2 = Some th2 ->
   in_cs (t_pc th1) = true -> in_cs (t_pc th2) = true -> t1 = t2.
-Proof. apply (mutex_of_inv c s0), reach_inv. Qed.
+Proof. apply (mutex_of_inv c s0), reach_inv; auto. Qed.
 
 Lemma lock_owner_all t th : nth_error (g_thr g) t = Some th ->
   (in_cs (t_pc th) = true <-> g_lock g = Some t).
-Proof. apply (inv_lock c s0), reach_inv. Qed.
+Proof. apply (inv_lock c s0), reach_inv; auto. Qed.
 
-Lemma not_interleaved_all : not_interleaved g.
-Proof. apply (not_interleaved_of_inv c s0), reach_inv. Qed.
+Lemma not_interleaved_all : not_interleaved c g.
+Proof. apply (not_interleaved_of_inv c s0), reach_inv; auto. Qed.
 
 Lemma sseq_chain_all : c_active c = true -> chain next_sseq s0 (tx_sseqs g).
-Proof. apply sseq_chain_of_inv, reach_inv. Qed.
+Proof. apply sseq_chain_of_inv, reach_inv; auto. Qed.
 
 Lemma sseq_adjacent_all : c_active c = true ->
   forall l1 a b l2, tx_sseqs g = l1 ++ a :: b :: l2 ->
   (a < 0xffffffff /\ b = a + 1) \/ (a = 0xffffffff /\ b = 1).
-Proof. apply (sseq_adjacent_of_inv c s0), reach_inv. Qed.
+Proof. apply (sseq_adjacent_of_inv c s0), reach_inv; auto. Qed.
 
 Lemma own_reply_all t th j o :
   nth_error (g_thr g) t = Some th -> nth_error (t_done th) j = Some o ->
-  exists q r, o = Ok r /\ nth_error (t_reqs th) j = Some q /\ answered g t j q r.
-Proof. apply (own_reply_of_inv c s0), reach_inv. Qed.
+  exists q r, o = Ok r /\ nth_error (t_reqs th) j = Some q /\ answered c g t j q r.
+Proof. apply (own_reply_of_inv c s0), reach_inv; auto. Qed.
 
 Lemma no_deadlock_all : all_finished g = false -> exists t, step c g t <> None.
-Proof. apply (no_deadlock c s0), reach_inv. Qed.
+Proof. apply (no_deadlock c s0), reach_inv; auto. Qed.
 
 Lemma q_empty_all : g_q g = [].
-Proof. apply (inv_q c s0), reach_inv. Qed.
+Proof. apply (inv_q c s0), reach_inv; auto. Qed.
 End AllSchedules.
